@@ -157,6 +157,7 @@ structure DState where
   pend : Pending := { registered := [], added := [], changed := [] }
   store : Store := []
   implicitAcc : List (Db × Oid) := []
+  saved : Store := []
   lastW : WState := WState.init
   dbs : List Db := []
   missing : List Cls := []
@@ -247,7 +248,9 @@ def step (d : DState) (toks : List String) : DState × String :=
     let n := d.objs.length
     (d, joinWith " " ((List.range n).map fun h =>
       toString h ++ "=" ++ showOpt (finalOid d.objs d.lastW h) ++ "@" ++ showJar (finalJar d.env d.objs d.lastW h)))
+  | ["txnbegin"] => ({ d with implicitAcc := [], saved := d.store }, "ok")
   | ["txnend"] => ({ d with implicitAcc := [] }, "ok")
+  | ["txnabort"] => ({ d with implicitAcc := [], store := d.saved }, "ok")
   | "put" :: key :: cls :: rest =>
     match parseKey key, cls.toNat?, parseTwo parseTok rest with
     | some k, some c, some (a, st) =>
@@ -269,8 +272,8 @@ def step (d : DState) (toks : List String) : DState × String :=
     match parseKey key with
     | some k => (d, match lookup k d.store with
       | some r => (match getRefs r.tokens with
-        | .ok l => "[" ++ joinWith "," (l.map fun (o, c) =>
-            hexOfBytes o ++ ":" ++ (match c with | some c => toString c | none => "-")) ++ "]"
+        -- (under `noload` the class of a reference is not resolved: only the oids are compared)
+        | .ok l => "[" ++ joinWith "," (l.map fun (o, _) => hexOfBytes o) ++ "]"
         | .error e => showErr e)
       | none => "none")
     | none => (d, "bad-op")
